@@ -837,6 +837,10 @@ func (e *Env) callExpr(n *ast.CallExpr, hint string) (Term, types.Type) {
 		if id.Name == "any" {
 			q = "exists"
 		}
+		if strings.Contains(body.S, "(witness "+qn+")") {
+			// spec.witness(x) in the body names the trigger, as for forall / exists
+			return T(sBool, "(%s ((%s %s)) (! %s :pattern ((witness %s))))", q, qn, srt, body.S, qn), nil
+		}
 		return T(sBool, "(%s ((%s %s)) %s)", q, qn, srt, body.S), nil
 	case "fresh":
 		t, _ := e.expr(n.Args[0], sRef)
@@ -859,6 +863,9 @@ func (e *Env) callExpr(n *ast.CallExpr, hint string) (Term, types.Type) {
 	case "alloc":
 		t, _ := e.expr(n.Args[0], sRef)
 		return T(sInt, "(alloc %s)", t.S), nil
+	case "clock":
+		// clock(): the allocation clock of the current state (every object that exists has a smaller stamp)
+		return e.st.now, nil
 	case "before":
 		// before(e) in a loop clause: e when the loop was entered
 		if e.loopPre == nil {
